@@ -177,39 +177,3 @@ def c_output_cancel_reaches_inputs(op: int, shield: bool, k0: int, v0: int) -> b
     if shield:
         return b.cancels == 0 and not b.cancelled()
     return b.cancels >= 1
-
-
-def _duplicates(op, k0, k1, v0, v1, first):
-    # f(a, a, b): the fold runs over the distinct completions
-    a, b = RF(), RF()
-    out = (f_or if op == 0 else f_and)(a, a, b)
-    kinds, vals, excs = [k0, k1], [v0, v1], [E("a"), E("b")]
-    order = [first, 1 - first]
-    fs = [a, b]
-    for i in order:
-        _finish(fs[i], kinds[i], vals[i], excs[i])
-    exp, at = _fold("or" if op == 0 else "and", order, kinds, vals, excs, 2)
-    got = _outcome(out)
-    if exp[0] != got[0]:
-        return False
-    if exp[0] == "value":
-        return got[1] == exp[1]
-    if exp[0] == "error":
-        return got[1] is exp[1]
-    return True
-
-
-def c_duplicates_or(k0: int, k1: int, v0: int, v1: int, first: int) -> bool:
-    """
-    pre: 0 <= k0 <= 2 and 0 <= k1 <= 2 and 0 <= first <= 1
-    post: __return__
-    """
-    return _duplicates(0, k0, k1, v0, v1, first)
-
-
-def c_duplicates_and(k0: int, k1: int, v0: int, v1: int, first: int) -> bool:
-    """
-    pre: 0 <= k0 <= 2 and 0 <= k1 <= 2 and 0 <= first <= 1
-    post: __return__
-    """
-    return _duplicates(1, k0, k1, v0, v1, first)
